@@ -3,7 +3,7 @@
 use std::collections::BTreeMap;
 
 use chrono::NaiveDate;
-use okane_core::report::query::{BalanceQuery, DateRange, PostingQuery};
+use okane_core::report::query::{BalanceQuery, Conversion, ConversionStrategy, DateRange, PostingQuery};
 
 use crate::fw::{CheckDef, Ctx, Outcome};
 use crate::oka::{self, Balances};
@@ -199,6 +199,7 @@ fn judge(prec: &Prec, seq: &[&T], text: &str, with_cli: bool, queries: &mut u64)
             return Err(Outcome::violation("register-differs-from-reference-postings", format!("register {:?}\nreference {:?}", reg_list, ref_postings)));
         }
         let mut table: BTreeMap<(usize, usize), Balances> = BTreeMap::new();
+        let single_x = !text.contains(" Y");
         for (si, s) in bs.iter().enumerate() {
             for (ei, e) in bs.iter().enumerate() {
                 let q = BalanceQuery { conversion: None, date_range: DateRange { start: s.map(day), end: e.map(day) } };
@@ -207,6 +208,30 @@ fn judge(prec: &Prec, seq: &[&T], text: &str, with_cli: bool, queries: &mut u64)
                     Ok(b) => oka::balance_to_map(&b),
                     Err(e) => return Err(Outcome::violation("balance-query-failed", format!("range {:?}..{:?}: {}", s, e, e))),
                 };
+                // a ledger that only ever mentions X, reported "in X" (the identity conversion, up to date or historical):
+                // the same sum over the same range
+                if single_x {
+                    if let Some(tc) = ctx.commodity("X") {
+                        for strategy in [ConversionStrategy::UpToDate { now: day(D3 + 5) }, ConversionStrategy::Historical] {
+                            *queries += 1;
+                            let hist = strategy == ConversionStrategy::Historical;
+                            let qx = BalanceQuery { conversion: Some(Conversion { strategy, target: tc }), date_range: DateRange { start: s.map(day), end: e.map(day) } };
+                            match l.balance(ctx, &qx) {
+                                Ok(b) => {
+                                    let gx = oka::balance_to_map(&b);
+                                    let same = {
+                                        let (a, b) = (oka::clean_balances(&gx), oka::clean_balances(&got));
+                                        a.keys().chain(b.keys()).all(|k| agrees(&b.get(k).cloned().unwrap_or_default(), &a.get(k).cloned().unwrap_or_default(), prec) || agrees(&a.get(k).cloned().unwrap_or_default(), &b.get(k).cloned().unwrap_or_default(), prec))
+                                    };
+                                    if !same {
+                                        return Err(Outcome::violation(format!("date-range-balance-in-its-own-commodity-differs/{}", if hist { "historical" } else { "up-to-date" }), format!("range {:?}..{:?}: balance -X X {:?}\nplain balance of the same range {:?}", s, e, gx, got)));
+                                    }
+                                }
+                                Err(er) => return Err(Outcome::violation("date-range-balance-in-its-own-commodity-failed", format!("range {:?}..{:?}: {}", s, e, er))),
+                            }
+                        }
+                    }
+                }
                 table.insert((si, ei), got);
             }
         }
